@@ -10,6 +10,7 @@ import (
 	"net"
 	"os"
 	"strings"
+	"sync"
 	"sync/atomic"
 	"time"
 
@@ -65,6 +66,7 @@ type xferCase struct {
 	UDPSize       int      // dgram: dns.Conn.UDPSize of the receiver (0 = unset)
 	PaceMs        int      // harness sender: pause before each envelope is written (real time; 0 = none)
 	ConsumerMs    int      // pause of the consumer between two receives from the envelope channel
+	ProducerMs    int      // library / libout sender: pause of the producer before it hands the LAST envelope to Transfer.Out's channel (real time)
 	ReadTimeoutMs int      // Transfer.ReadTimeout for paced cases (0 = the harness default of 20 s)
 	Rounds        []string // library / libout sender: requests sent over ONE connection ("xfr" | "query"); empty = one transfer
 }
@@ -257,6 +259,9 @@ func (c xferCase) valid() string {
 			return "datagram transport: IXFR question, harness sender, envelope-level faults only"
 		}
 	}
+	if c.ProducerMs < 0 || c.ProducerMs > 5000 || (c.ProducerMs > 0 && c.Sender == "harness") {
+		return "producer pause: library sender, at most 5 s"
+	}
 	if c.timed() && (c.Sender != "harness" || c.PaceMs > 1000 || c.ConsumerMs > 1000 || c.PaceMs < 0 || c.ConsumerMs < 0 || c.ReadTimeoutMs < 0 || len(c.Sizes) > 12) {
 		return "timed cases: harness sender, short pauses, few envelopes"
 	}
@@ -398,6 +403,7 @@ type frame struct {
 }
 
 type plan struct {
+	alterAt  string // alter fault: which part of the envelope was hit
 	frames   []frame
 	stream   []byte // length-prefixed frames, cut applied
 	firstBad int    // position (0-based frame index; len(frames) = end of stream) at which an error is due at the latest; -1: none required
@@ -407,6 +413,68 @@ type plan struct {
 	benign   bool   // the fault cannot be observed by a receiver that stops at the closing SOA: expect the fault-free outcome
 	nreal    int    // frames up to and including the closing envelope (post-fault), before the trailer
 	rcode    int
+}
+
+// alterClass names the part of a signed envelope that holds octet at and says whether flipping the
+// bits x there must be detected by a receiver that verifies per RFC 8945. full = the envelope is
+// digested with the complete TSIG variables (first message of the answer), otherwise timers only.
+//   - everything before the TSIG RR, Time Signed, Fudge, the MAC and Original ID are always digested;
+//   - key name and algorithm name are digested in canonical (lower-case) form when full, and they
+//     select key and function in any case: only a pure letter-case flip may go unnoticed;
+//   - TYPE: the record is no TSIG any more (unsigned envelope);
+//   - CLASS, TTL, Error, Other Len: digested only when full (§4.3.3); in a timers-only envelope a
+//     receiver may or may not look at them;
+//   - RDLENGTH and MAC Size change how the RDATA is cut up; whether what remains is acceptable
+//     (truncated MAC, §5.2.2.1) is left open here.
+func alterClass(b []byte, t wireTsig, at int, x byte, full bool) (string, bool) {
+	nameFlip := func(start, end int) bool { // must-detect for an octet inside an uncompressed name
+		for off := start; off < end; {
+			l := int(b[off])
+			if at == off {
+				return true // a length octet: the name is cut differently
+			}
+			if at > off && at <= off+l {
+				c := b[at]
+				letter := c >= 'a' && c <= 'z' || c >= 'A' && c <= 'Z'
+				return !(letter && x == 0x20)
+			}
+			off += 1 + l
+		}
+		return true
+	}
+	ownerEnd, _ := skipName(b, t.Off)
+	rd := ownerEnd + 10
+	origID := t.MacOff + len(t.MAC)
+	switch {
+	case at < t.Off:
+		return "message", true
+	case at < ownerEnd:
+		return "tsig-owner", nameFlip(t.Off, ownerEnd)
+	case at < ownerEnd+2:
+		return "tsig-type", true
+	case at < ownerEnd+4:
+		return "tsig-class", full
+	case at < ownerEnd+8:
+		return "tsig-ttl", full
+	case at < rd:
+		return "tsig-rdlength", false
+	case at < t.TimeOff:
+		return "tsig-algorithm", nameFlip(rd, t.TimeOff)
+	case at < t.TimeOff+6:
+		return "tsig-time", true
+	case at < t.TimeOff+8:
+		return "tsig-fudge", true
+	case at < t.MacOff:
+		return "tsig-macsize", false
+	case at < origID:
+		return "tsig-mac", true
+	case at < origID+2:
+		return "tsig-origid", true
+	case at < origID+4:
+		return "tsig-error", full
+	default:
+		return "tsig-otherlen", full
+	}
 }
 
 func packEnvelope(c xferCase, recs []recSpec) []byte {
@@ -544,29 +612,25 @@ func buildPlan(c xferCase, reqMAC []byte, now uint64) plan {
 			return fr // unsigned
 		}
 		if hit && f.Kind == "alter" {
-			// covered octets: the whole message before the TSIG RR, the MAC, time signed and fudge
+			// any octet of the signed envelope, the TSIG RR included; the reference (RFC 8945 §4.2,
+			// §4.3.3, §5.3.1) decides whether the alteration must be noticed
 			t, ok, err := findTsig(out)
 			if err != nil || !ok || t.Off != tsigOff {
 				panic("harness: cannot locate own TSIG")
 			}
-			var region []int
-			for x := 0; x < tsigOff; x++ {
-				region = append(region, x)
-			}
-			for x := t.MacOff; x < t.MacOff+len(t.MAC); x++ {
-				region = append(region, x)
-			}
-			for x := t.TimeOff; x < t.TimeOff+8; x++ {
-				region = append(region, x)
-			}
-			at := region[((f.K%len(region))+len(region))%len(region)]
+			at := ((f.K % len(out)) + len(out)) % len(out)
 			x := byte(f.Val)
 			if x == 0 {
 				x = 0x20
 			}
+			where, must := alterClass(out, t, at, x, !o.timersOnly)
+			p.alterAt = where
 			out = append([]byte{}, out...)
 			out[at] ^= x
-			p.firstBad, p.strong, p.prefix = i, true, true
+			p.prefix = true
+			if must {
+				p.firstBad, p.strong = i, true
+			}
 		}
 		fr.b = out
 		return fr
@@ -879,13 +943,15 @@ type outServer struct {
 	done    chan error
 	status  chan string // one entry per handled request
 	handled int32       // requests whose handler has returned
+	hmu     sync.Mutex
+	handoff map[uint16][]int64 // request ID -> wall-clock second at which each envelope was handed to Transfer.Out's channel
 	envs    [][]dns.RR
 	trailer bool
 	zone    string
 }
 
 func startOutServer(c xferCase) (*outServer, error) {
-	o := &outServer{lis: newMemListener(), done: make(chan error, 1), status: make(chan string, 16), zone: c.Zone}
+	o := &outServer{lis: newMemListener(), done: make(chan error, 1), status: make(chan string, 16), zone: c.Zone, handoff: map[uint16][]int64{}}
 	multi := c.multi()
 	for _, e := range c.envelopes() {
 		var rrs []dns.RR
@@ -930,7 +996,13 @@ func startOutServer(c xferCase) (*outServer, error) {
 		go func() { fin <- tr.Out(w, r, ch) }()
 		finished := false
 	loop:
-		for _, e := range o.envs {
+		for k, e := range o.envs {
+			if c.ProducerMs > 0 && k == len(o.envs)-1 && k > 0 {
+				time.Sleep(time.Duration(c.ProducerMs) * time.Millisecond) // a producer that needs time for the rest of the zone
+			}
+			o.hmu.Lock()
+			o.handoff[r.Id] = append(o.handoff[r.Id], time.Now().Unix())
+			o.hmu.Unlock()
 			select {
 			case ch <- &dns.Envelope{RR: e}:
 			case <-fin:
@@ -1240,8 +1312,14 @@ func checkXfer(c xferCase) error {
 			}
 		case p.strong:
 			classes = append(classes, "expect=error", "errkind="+errKind(firstErr(r)))
+			if p.alterAt != "" {
+				classes = append(classes, fmt.Sprintf("alter=%s/first=%v/must", p.alterAt, c.Fault.Env%len(c.Sizes) == 0))
+			}
 		default:
 			classes = append(classes, "expect=terminates-only")
+			if p.alterAt != "" {
+				classes = append(classes, fmt.Sprintf("alter=%s/first=%v/may(detected=%v)", p.alterAt, c.Fault.Env%len(c.Sizes) == 0, firstErr(r) != nil))
+			}
 		}
 		if len(r.envs) > 0 && firstErr(r) == nil && len(r.envs) == nenv {
 			classes = append(classes, "envelope-boundaries-preserved")
